@@ -4,12 +4,24 @@ import (
 	"fmt"
 	"math"
 	"reflect"
+	"time"
 )
 
 // CanonEqual compares two Go values up to the documented mapping: nil and empty slices/maps are
 // the same, floats compare by bit pattern, pointers by pointee (nil only equals nil).
 // It returns a path to the first difference.
 func CanonEqual(a, b reflect.Value, path string) (bool, string) {
+	return canonEqual(a, b, path, false)
+}
+
+// CanonEqualOpt is CanonEqual that in addition tells nil from empty where the schema does: a
+// map or list field carrying the `optional` tag is null when nil and present-but-empty when
+// empty and non-nil (two different definition levels), so re-assembly must give back the same.
+func CanonEqualOpt(a, b reflect.Value, path string) (bool, string) {
+	return canonEqual(a, b, path, true)
+}
+
+func canonEqual(a, b reflect.Value, path string, strictOpt bool) (bool, string) {
 	if a.Kind() != b.Kind() {
 		return false, path + ": kind " + a.Kind().String() + " vs " + b.Kind().String()
 	}
@@ -21,10 +33,26 @@ func CanonEqual(a, b reflect.Value, path string) (bool, string) {
 			}
 			return true, ""
 		}
-		return CanonEqual(a.Elem(), b.Elem(), path)
+		return canonEqual(a.Elem(), b.Elem(), path, strictOpt)
 	case reflect.Struct:
+		if a.Type() == timeType {
+			// the instant (location and monotonic reading are not stored)
+			ta, tb := timeOf(a), timeOf(b)
+			if !ta.Equal(tb) {
+				return false, fmt.Sprintf("%s: time %s vs %s", path, ta.UTC().Format(time.RFC3339Nano), tb.UTC().Format(time.RFC3339Nano))
+			}
+			return true, ""
+		}
 		for i := 0; i < a.NumField(); i++ {
-			if ok, d := CanonEqual(a.Field(i), b.Field(i), path+"."+a.Type().Field(i).Name); !ok {
+			fa, fb := a.Field(i), b.Field(i)
+			if strictOpt && (fa.Kind() == reflect.Map || fa.Kind() == reflect.Slice && fa.Type().Elem().Kind() != reflect.Uint8) {
+				for _, o := range splitTag(a.Type().Field(i).Tag.Get("parquet"))[1:] {
+					if o == "optional" && fa.IsNil() != fb.IsNil() && (fa.Kind() == reflect.Map || hasTagOption(a.Type().Field(i), "list")) {
+						return false, fmt.Sprintf("%s.%s: optional %s nil=%v vs nil=%v", path, a.Type().Field(i).Name, fa.Kind(), fa.IsNil(), fb.IsNil())
+					}
+				}
+			}
+			if ok, d := canonEqual(fa, fb, path+"."+a.Type().Field(i).Name, strictOpt); !ok {
 				return false, d
 			}
 		}
@@ -43,7 +71,7 @@ func CanonEqual(a, b reflect.Value, path string) (bool, string) {
 			av.Set(a.MapIndex(k))
 			bc := reflect.New(b.Type().Elem()).Elem()
 			bc.Set(bv)
-			if ok, d := CanonEqual(av, bc, fmt.Sprintf("%s[%v]", path, k)); !ok {
+			if ok, d := canonEqual(av, bc, fmt.Sprintf("%s[%v]", path, k), strictOpt); !ok {
 				return false, d
 			}
 		}
@@ -53,14 +81,14 @@ func CanonEqual(a, b reflect.Value, path string) (bool, string) {
 			return false, fmt.Sprintf("%s: len %d vs %d", path, a.Len(), b.Len())
 		}
 		for i := 0; i < a.Len(); i++ {
-			if ok, d := CanonEqual(a.Index(i), b.Index(i), fmt.Sprintf("%s[%d]", path, i)); !ok {
+			if ok, d := canonEqual(a.Index(i), b.Index(i), fmt.Sprintf("%s[%d]", path, i), strictOpt); !ok {
 				return false, d
 			}
 		}
 		return true, ""
 	case reflect.Array:
 		for i := 0; i < a.Len(); i++ {
-			if ok, d := CanonEqual(a.Index(i), b.Index(i), fmt.Sprintf("%s[%d]", path, i)); !ok {
+			if ok, d := canonEqual(a.Index(i), b.Index(i), fmt.Sprintf("%s[%d]", path, i), strictOpt); !ok {
 				return false, d
 			}
 		}
@@ -110,4 +138,19 @@ func float32frombitsOf(v reflect.Value) float32 {
 	c := reflect.New(v.Type()).Elem()
 	c.Set(v)
 	return *(c.Addr().Interface().(*float32))
+}
+
+func timeOf(v reflect.Value) time.Time {
+	c := reflect.New(timeType).Elem()
+	c.Set(v)
+	return c.Interface().(time.Time)
+}
+
+func hasTagOption(sf reflect.StructField, opt string) bool {
+	for _, o := range splitTag(sf.Tag.Get("parquet"))[1:] {
+		if o == opt {
+			return true
+		}
+	}
+	return false
 }
